@@ -10,6 +10,7 @@ import (
 	sdkmath "cosmossdk.io/math"
 
 	"github.com/EscanBE/evermint/v12/utils"
+	authtypes "github.com/cosmos/cosmos-sdk/x/auth/types"
 	govtypes "github.com/cosmos/cosmos-sdk/x/gov/types"
 	"github.com/ethereum/go-ethereum/common"
 	ethtypes "github.com/ethereum/go-ethereum/core/types"
@@ -72,6 +73,25 @@ func (k *Keeper) EthereumTx(goCtx context.Context, msg *evmtypes.MsgEthereumTx) 
 		return nil, errorsmod.Wrap(err, "failed to apply transaction")
 	}
 
+	if k.IsSenderPaidTxFeeInAnteHandle(ctx) && ethTx.Gas() > response.GasUsed {
+		// The whole fee (gas limit * effective gas price) was moved to the fee collector by the AnteHandle,
+		// while the state transition credited the unused part back to the sender by minting it.
+		// Burn that unused part from the fee collector so no coin is created by the transaction.
+		unusedFee := new(big.Int).Mul(
+			new(big.Int).SetUint64(ethTx.Gas()-response.GasUsed),
+			evmutils.EthTxEffectiveGasPrice(ethTx, k.feeMarketKeeper.GetBaseFee(ctx)),
+		)
+		if unusedFee.Sign() > 0 {
+			coins := sdk.NewCoins(sdk.NewCoin(k.GetParams(ctx).EvmDenom, sdkmath.NewIntFromBigInt(unusedFee)))
+			if err := k.bankKeeper.SendCoinsFromModuleToModule(ctx, authtypes.FeeCollectorName, evmtypes.ModuleName, coins); err != nil {
+				return nil, errorsmod.Wrap(err, "failed to take back the unused fee from fee collector")
+			}
+			if err := k.bankKeeper.BurnCoins(ctx, evmtypes.ModuleName, coins); err != nil {
+				return nil, errorsmod.Wrap(err, "failed to burn the unused fee")
+			}
+		}
+	}
+
 	defer func() {
 		telemetry.IncrCounterWithLabels(
 			[]string{"tx", "msg", "ethereum_tx", "total"},
@@ -119,6 +139,8 @@ func (k *Keeper) EthereumTx(goCtx context.Context, msg *evmtypes.MsgEthereumTx) 
 	receipt.GasUsed = response.GasUsed
 	receipt.BlockNumber = big.NewInt(ctx.BlockHeight())
 	receipt.TransactionIndex = uint(txIndex)
+	// the log index is a non-consensus field which is not part of the marshalled receipt
+	fillLogIndexes(receipt.Logs, uint(k.GetCumulativeLogCountTransient(ctx, true)))
 
 	receiptSdkEvent, err := evmtypes.GetSdkEventForReceipt(
 		receipt, // receipt
@@ -146,6 +168,13 @@ func (k *Keeper) EthereumTx(goCtx context.Context, msg *evmtypes.MsgEthereumTx) 
 	})
 
 	return response, nil
+}
+
+// fillLogIndexes numbers the logs of a transaction consecutively, starting at the index of its first log within the block.
+func fillLogIndexes(logs []*ethtypes.Log, startLogIndex uint) {
+	for i, log := range logs {
+		log.Index = startLogIndex + uint(i)
+	}
 }
 
 // UpdateParams implements the gRPC MsgServer interface. When an UpdateParams
